@@ -451,11 +451,8 @@ class BlackbirdProgram:
 
                     elif isinstance(v, sym.Expr):
                         # argument contains free parameters
-                        res = str(v)
-                        for p in v.free_symbols:
-                            res = res.replace(str(p), "{"+str(p)+"}")
-
-                        args.append(res)
+                        braces = {p: sym.Symbol("{" + str(p) + "}") for p in v.free_symbols}
+                        args.append(str(v.subs(braces)))
 
                     else:
                         # anything that doesn't need to be dealt with as a special case,
@@ -494,6 +491,11 @@ class BlackbirdProgram:
 
                     elif isinstance(v, list):
                         kwargs.append("{}={}".format(k, _list_to_blackbird(v)))
+
+                    elif isinstance(v, sym.Expr):
+                        # kwarg contains free parameters
+                        braces = {p: sym.Symbol("{" + str(p) + "}") for p in v.free_symbols}
+                        kwargs.append("{}={}".format(k, v.subs(braces)))
 
                     else:
                         kwargs.append("{}={}".format(k, v))
